@@ -262,6 +262,59 @@ def rule_plain(ctx):
     return rr
 
 
+def rule_local(ctx):
+    """A formula is never replaced wholesale: the parsed expression is dropped
+    only after it has been compiled into the cell function."""
+    from ..cfg import CFG
+    rr = RuleResult('C14', 'C14.local', 'MPT',
+                    'a cell formula is always compiled: no path discards the '
+                    'parsed expression for a constant', floor=1)
+    p = ctx.project
+    f = p.func('formulas/cell.py', 'Cell.compile')
+    sn = f.params[0]
+    cfg = CFG(f)
+    dom = cfg.dominators()
+
+    def is_self_builder(e):
+        return isinstance(e, ast.Attribute) and e.attr == 'builder' and \
+            isinstance(e.value, ast.Name) and e.value.id == sn
+
+    drops = [n for n in own_nodes(f) if isinstance(n, ast.Assign) and any(
+        is_self_builder(t) for t in n.targets) and isinstance(
+        n.value, ast.Constant) and n.value.value is None]
+    comp = [n for n in own_nodes(f) if isinstance(n, ast.Call) and
+            call_name(n) == 'compile' and isinstance(n.func, ast.Attribute)
+            and is_self_builder(n.func.value)]
+    if not drops or not comp:
+        raise AnalysisError('Cell.compile: `self.builder.compile(...)` / '
+                            '`self.builder = None` not recognised')
+    bound = False
+    for t, v, st in assign_pairs(f):
+        if isinstance(t, ast.Attribute) and t.attr == 'func' and isinstance(
+                t.value, ast.Name) and t.value.id == sn:
+            bound = True
+    rr.instances += 1
+    cnodes = [cfg.node_of(c) for c in comp]
+    bad = [d for d in drops if not any(
+        cn is not None and cfg.dominates(cn, cfg.node_of(d), dom)
+        for cn in cnodes)]
+    if bad or not bound:
+        d = (bad or drops)[0]
+        rr.fail(key_of(f, 'expression dropped without being compiled'),
+                'Cell.compile can reach `self.builder = None` (line %d) on a '
+                'path that does not pass through self.builder.compile(): the '
+                'whole formula is replaced by whatever constant the cell '
+                'holds, so one unresolvable item anywhere in the formula - '
+                'even inside a branch that is not selected or inside IFERROR '
+                '- decides the cell' % d.lineno, file=f.module.rel,
+                function=f.qualname, line=d.lineno)
+    else:
+        rr.ok('every path that discards the parsed expression has compiled '
+              'it into self.func first', '%s:%d' % (f.module.rel,
+                                                    drops[0].lineno))
+    return rr
+
+
 def run(ctx):
     t = rule_table(ctx)
     t.prop, t.rule = 'C14', 'C14.table'
@@ -270,4 +323,4 @@ def run(ctx):
     for o in t.obligations:
         o.rule = 'C14.table'
     return [rule_name(ctx), t, rule_lookup(ctx), rule_ref(ctx),
-            rule_plain(ctx)]
+            rule_plain(ctx), rule_local(ctx)]
